@@ -138,6 +138,7 @@ type Enc struct {
 	shadow       map[string][2]string
 	ghostModel   [][2]string
 	skippedImplicit int
+	usedPrivate  map[string]bool
 	curTag       int
 	ntag         int
 	curAllowed   map[int]bool
@@ -146,7 +147,7 @@ type Enc struct {
 func newEnc(p *Prog, fn *ssa.Function, spec *FuncSpec) *Enc {
 	e := &Enc{p: p, st: newSortTable(), regionSort: map[string]string{}, regionConst: map[string]string{}, root: fn, rootSpec: spec,
 		abstractions: map[string]bool{}, strLits: map[string]string{}, oblNames: map[string]int{},
-		usedTrusted: map[string]string{}, usedHavoc: map[string]bool{}, usedInline: map[string]bool{}, usedEffFree: map[string]bool{}, tupleVals: map[tupleKey]string{}, ghostUsed: map[string]bool{}, regionElem: map[string][2]string{}, usedMarks: map[string]int{}, assumedPre: map[string]string{}, alias: map[string]string{}, intValued: map[string]bool{}, shadow: map[string][2]string{}}
+		usedTrusted: map[string]string{}, usedHavoc: map[string]bool{}, usedInline: map[string]bool{}, usedEffFree: map[string]bool{}, tupleVals: map[tupleKey]string{}, ghostUsed: map[string]bool{}, regionElem: map[string][2]string{}, usedMarks: map[string]int{}, assumedPre: map[string]string{}, alias: map[string]string{}, intValued: map[string]bool{}, shadow: map[string][2]string{}, usedPrivate: map[string]bool{}}
 	e.regionSort["heapTop"] = "Int"
 	return e
 }
@@ -273,6 +274,9 @@ func (e *Enc) get(s *state, region string) string {
 	if strings.HasPrefix(region, "ghost:") || isForeignGlobal(region) {
 		key = region + "@0" // never havocked implicitly
 	}
+	if _, priv := e.p.specs.Private[region]; priv {
+		key = region + "@0"
+	}
 	if id, ok := s.stale[region]; ok {
 		key = fmt.Sprintf("%s@s%d", region, id)
 	}
@@ -320,6 +324,10 @@ func (e *Enc) havocAll(s *state, escLocals map[string]bool) {
 		}
 		if strings.HasPrefix(r, "ghost:") || isForeignGlobal(r) {
 			keep[r] = t
+		}
+		if _, priv := e.p.specs.Private[r]; priv {
+			keep[r] = t
+			e.usedPrivate[r] = true
 		}
 	}
 	e.nepoch++
